@@ -101,6 +101,12 @@ def r_expr(e):
         return f"BOUND(?v{e[1]})"
     if k == "exists":
         return ("EXISTS " if e[1] else "NOT EXISTS ") + r_group(e[2])
+    if k == "in":
+        return f"({r_expr(e[2])} {'IN' if e[1] else 'NOT IN'} (" + ", ".join(r_tv(c) for c in e[3]) + "))"
+    if k == "coalesce":
+        return f"COALESCE({r_expr(e[1])}, {r_expr(e[2])})"
+    if k == "if":
+        return f"IF({r_expr(e[1])}, {r_expr(e[2])}, {r_expr(e[3])})"
     raise ValueError(e)
 
 
@@ -187,6 +193,16 @@ def t_expr(e):
         return ["con", 21]
     if nm == "RelationalExpression":
         op = _attr(e, "op")
+        if op in ("IN", "NOT IN"):
+            left = _attr(e, "expr")
+            if not isinstance(left, (Variable, URIRef, Literal)):
+                raise Unmodelled("IN over a non-atomic left operand")
+            other = _attr(e, "other")
+            if isinstance(other, URIRef) and str.__str__(other).endswith("#nil"):
+                other = []
+            if not isinstance(other, list) or not all(isinstance(x, (URIRef, Literal)) for x in other):
+                raise Unmodelled("IN list with non-constant members")
+            return ["in", op == "IN", t_expr(left), [term_id(x) for x in other]]
         if op not in ("=", "!=", "<", ">"):
             raise Unmodelled("op " + str(op))
         return ["cmp", op, t_expr(_attr(e, "expr")), t_expr(_attr(e, "other"))]
@@ -202,6 +218,17 @@ def t_expr(e):
         return acc
     if nm == "UnaryNot":
         return ["not", t_expr(_attr(e, "expr"))]
+    if nm == "Builtin_COALESCE":
+        args = _attr(e, "arg")
+        if not isinstance(args, list):
+            args = [args]
+        ts = [t_expr(a) for a in args]
+        acc = ts[-1]
+        for t in reversed(ts[:-1]):
+            acc = ["coalesce", t, acc]
+        return acc
+    if nm == "Builtin_IF":
+        return ["if", t_expr(_attr(e, "arg1")), t_expr(_attr(e, "arg2")), t_expr(_attr(e, "arg3"))]
     if nm == "Builtin_BOUND":
         return ["bound", var_id(_attr(e, "arg"))]
     if nm in ("Builtin_EXISTS", "Builtin_NOTEXISTS"):
@@ -294,6 +321,12 @@ def c_expr(e):
         return f"(EBound {cN(e[1])})"
     if k == "exists":
         return f"(EExists {cbool(e[1])} {c_alg(e[2])})"
+    if k == "in":
+        return f"(EIn {cbool(e[1])} {c_expr(e[2])} " + clist(cN(c) for c in e[3]) + ")"
+    if k == "coalesce":
+        return f"(ECoalesce {c_expr(e[1])} {c_expr(e[2])})"
+    if k == "if":
+        return f"(EIf {c_expr(e[1])} {c_expr(e[2])} {c_expr(e[3])})"
     raise ValueError(e)
 
 
@@ -397,6 +430,12 @@ def ref_expr(e):
         return ["not", ref_expr(e[1])]
     if e[0] == "cmp":
         return ["cmp", e[1], ref_expr(e[2]), ref_expr(e[3])]
+    if e[0] == "in":
+        return ["in", e[1], ref_expr(e[2]), list(e[3])]
+    if e[0] == "coalesce":
+        return ["coalesce", ref_expr(e[1]), ref_expr(e[2])]
+    if e[0] == "if":
+        return ["if", ref_expr(e[1]), ref_expr(e[2]), ref_expr(e[3])]
     return list(e)
 
 
@@ -462,6 +501,12 @@ def strip_e(e):
         return ["not", strip_e(e[1])]
     if e[0] == "cmp":
         return ["cmp", e[1], strip_e(e[2]), strip_e(e[3])]
+    if e[0] == "in":
+        return ["in", e[1], strip_e(e[2]), list(e[3])]
+    if e[0] == "coalesce":
+        return ["coalesce", strip_e(e[1]), strip_e(e[2])]
+    if e[0] == "if":
+        return ["if", strip_e(e[1]), strip_e(e[2]), strip_e(e[3])]
     return list(e)
 
 
@@ -491,6 +536,12 @@ def drop_e(e):
         return ["not", drop_e(e[1])]
     if e[0] == "cmp":
         return ["cmp", e[1], drop_e(e[2]), drop_e(e[3])]
+    if e[0] == "in":
+        return ["in", e[1], drop_e(e[2]), list(e[3])]
+    if e[0] == "coalesce":
+        return ["coalesce", drop_e(e[1]), drop_e(e[2])]
+    if e[0] == "if":
+        return ["if", drop_e(e[1]), drop_e(e[2]), drop_e(e[3])]
     return list(e)
 
 
@@ -565,6 +616,8 @@ class C04(Suite):
             q = self.gen_twin(env)
         if is_ds and not twin and rng.random() < 0.14:
             named, q = self.gen_graph_exists(env, named)
+        elif not twin and rng.random() < 0.07:
+            q = self.gen_expr_focus(env)
         r = rng.random()
         case = {"ds": is_ds, "default": default, "named": named, "q": q}
         if r < 0.8 or twin:
@@ -585,6 +638,44 @@ class C04(Suite):
 
     def gen_var(self, env):
         return env["rng"].randint(1, env["nv"])
+
+    def gen_expr_focus(self, env):
+        """one BGP and one IF / COALESCE / IN expression over its variables, constants of the data and a
+        variable that nothing binds (so that the error semantics of the unchosen / skipped operands shows)"""
+        rng = env["rng"]
+        s0, p0, o0 = rng.choice(env["triples"]) if env["triples"] else (1, 4, 2)
+        unb = ["var", 9]
+        vals = sorted({t[2] for t in env["triples"]} | {t[0] for t in env["triples"]}) or [1]
+
+        def atom():
+            r = rng.random()
+            if r < 0.3:
+                return ["var", 1]
+            if r < 0.6:
+                return ["var", 2]
+            if r < 0.8:
+                return ["con", rng.choice(vals)]
+            return unb
+
+        def cond():
+            c = ["cmp", rng.choice(["=", "!="]), ["var", rng.choice([1, 2])], ["con", rng.choice([s0, o0] + vals)]]
+            return c if rng.random() < 0.8 else ["bound", rng.choice([1, 2, 9])]
+
+        k = rng.choice(["if", "if", "coalesce", "in", "in", "iff"])
+        if k == "if":
+            el = ["bind", ["if", cond(), atom(), atom()], 5]
+        elif k == "coalesce":
+            args = [atom() for _ in range(rng.choice([2, 3]))]
+            e = args[-1]
+            for a in reversed(args[:-1]):
+                e = ["coalesce", a, e]
+            el = ["bind", e, 5]
+        elif k == "in":
+            cs = [rng.choice([s0, o0] + vals) for _ in range(rng.choice([1, 2, 3]))]
+            el = ["filter", ["in", rng.random() < 0.5, ["var", rng.choice([1, 2])], cs]]
+        else:
+            el = ["filter", ["if", cond(), cond(), cond()]]
+        return ["group", [["bgp", [[-1, p0, -2]]], el]]
 
     def gen_graph_exists(self, env, named):
         """(NOT) EXISTS - as FILTER, as the condition of an OPTIONAL, as the value of a BIND -
@@ -678,8 +769,17 @@ class C04(Suite):
             return ["not", self.gen_expr(env, depth - 1, allow_exists)]
         if r < 0.75:
             return ["and", self.gen_expr(env, depth - 1, allow_exists), self.gen_expr(env, depth - 1, allow_exists)]
-        if r < 0.85:
+        if r < 0.83:
             return ["or", self.gen_expr(env, depth - 1, allow_exists), self.gen_expr(env, depth - 1, allow_exists)]
+        if r < 0.88:
+            pool = sorted({t[0] for t in env["triples"]} | {t[2] for t in env["triples"]}) or env["subs"]
+            cs = [rng.choice(pool + [10, 11]) for _ in range(rng.choice([0, 1, 2, 2, 3]))]
+            return ["in", rng.random() < 0.5, ["var", self.gen_var(env)] if rng.random() < 0.8 else self.gen_atom(env), cs]
+        if r < 0.91:
+            return ["if", self.gen_expr(env, depth - 1, False), self.gen_expr(env, depth - 1, False),
+                    self.gen_expr(env, depth - 1, False)]
+        if r < 0.93:
+            return ["coalesce", self.gen_expr(env, depth - 1, False), self.gen_expr(env, depth - 1, False)]
         if allow_exists and env["budget"] > 0:
             env["budget"] -= 1
             return ["exists", rng.random() < 0.5, self.gen_group(env, min(depth, 1), in_exists=True)]
@@ -710,7 +810,21 @@ class C04(Suite):
                 cands = [v for v in range(1, env["nv"] + 2) if v not in used]
                 if cands:
                     v = rng.choice(cands)
-                    e = self.gen_atom(env) if rng.random() < 0.6 else self.gen_expr(env, 1, allow_exists=False)
+                    rb = rng.random()
+                    if rb < 0.5:
+                        e = self.gen_atom(env)
+                    elif rb < 0.62:
+                        e = ["coalesce", self.gen_atom(env), self.gen_atom(env)]
+                        if rng.random() < 0.4:
+                            e = ["coalesce", self.gen_atom(env), e]
+                    elif rb < 0.74:
+                        br = [self.gen_atom(env), self.gen_atom(env)]
+                        if rng.random() < 0.5:
+                            # one branch that raises when evaluated (a variable nothing binds)
+                            br[rng.choice([0, 1])] = ["var", env["nv"] + 2]
+                        e = ["if", self.gen_expr(env, 1, allow_exists=False), br[0], br[1]]
+                    else:
+                        e = self.gen_expr(env, 1, allow_exists=False)
                     elems.append(["bind", e, v])
                 else:
                     elems.append(["bgp", [self.gen_tpat(env)]])
@@ -830,7 +944,7 @@ class C04(Suite):
                     walk(x[3])
                 elif x[0] == "group":
                     walk(x)
-                elif x[0] == "filter":
+                elif x[0] in ("filter", "bind"):
                     wexpr(x[1])
 
         def wexpr(e):
@@ -841,6 +955,11 @@ class C04(Suite):
                 wexpr(e[1]), wexpr(e[2])
             elif e[0] == "not":
                 wexpr(e[1])
+            elif e[0] in ("in", "coalesce", "if"):
+                f["expr_" + e[0]] = f.get("expr_" + e[0], 0) + 1
+                for x in e[1:]:
+                    if isinstance(x, list) and x and isinstance(x[0], str):
+                        wexpr(x)
 
         walk(case["q"])
         return f
@@ -936,9 +1055,36 @@ def shrink_expr(e):
     elif k == "exists":
         for h in shrink_group(e[2]):
             yield ["exists", e[1], h]
+    elif k == "in":
+        for i in range(len(e[3])):
+            yield ["in", e[1], e[2], e[3][:i] + e[3][i + 1:]]
+    elif k == "coalesce":
+        yield e[1]
+        yield e[2]
+    elif k == "if":
+        yield e[2]
+        yield e[3]
+        for c in shrink_expr(e[1]):
+            yield ["if", c, e[2], e[3]]
 
 
-SUITES = [C04()]
+class C04Frag(C04):
+    """The same generator, measured against the PROVED fragment: the trigger of this suite is
+    "a finding trigger fires, or the case is outside the fragment of C04_spec_ok_model_partial", so that
+    evidence.coverage.trigger_hits["fragment_share"] / distribution["fragment_share.cases"] is the share of
+    generated cases that the tie theorem does not cover (for "sparql_eval" the same ratio is the share of
+    triggered cases).  Verdicts are as in the main suite."""
+    name = "fragment_share"
+    imports = "From RV Require Import Sparql.Tie.\nSet Printing Width 1000000."
+    kf = "(fun c => if N.eqb (kf c) 0 then (if in_frag c && case_wf c then 0%N else 100%N) else kf c)"
+    quick_n = 300
+    thorough_n = 3000
+
+    def features(self, case, obs):
+        return {"cases": 1}
+
+
+SUITES = [C04(), C04Frag()]
 
 TRUSTED = [
     "Coq 8.16.1 kernel and vm_compute",
@@ -952,9 +1098,12 @@ ASSUMPTIONS = [
     "vocabulary: IRIs and small xsd:integer literals in the data, xsd:boolean literals arise from expressions only; no blank nodes, no language tags",
     "initBindings empty (C15 exercises initBindings by conformance)",
     "the order of solutions and of dict entries is not observed",
+    "expressions: variables, constants, = != < >, && || !, BOUND, IN / NOT IN over constant lists with an atomic left operand, IF, COALESCE, "
+    "(NOT) EXISTS; not modelled (the converter fails closed): arithmetic, the string / date / hash built-ins, IN over non-constant members, "
+    "bare variables as operands of && / ||, property paths",
     "m.ctx.bindings of a solution (used by Builtin_EXISTS through thaw when the visible solution is empty) is approximated by the solution before forget()",
 ]
 RULE = ("queries: group graph patterns of nesting <= 4 over 1-4 variables shared at random between BGPs, OPTIONAL, UNION, MINUS, FILTER "
-        "(comparisons, && || !, BOUND, (NOT) EXISTS), BIND, VALUES (with UNDEF and duplicate rows), sub-SELECT (DISTINCT or not), GRAPH "
+        "(comparisons, && || !, BOUND, IN / NOT IN over constants, IF, COALESCE, (NOT) EXISTS), BIND (also of IF / COALESCE with an operand that raises), VALUES (with UNDEF and duplicate rows), sub-SELECT (DISTINCT or not), GRAPH "
         "(IRI or variable; 14 % of the dataset cases: (NOT) EXISTS as FILTER / OPTIONAL condition / BIND inside GRAPH ?g over two named graphs that share the outer matches and differ in what the EXISTS pattern matches), SELECT (star or projection) / ASK / CONSTRUCT; data: 1-5 triples over 2-3 subjects, 1-2 predicates, 2-3 objects, "
         "datasets with two named graphs whose names are also data terms; distinct by full case content; non-trivial = evaluated without error")
